@@ -203,6 +203,15 @@ def monopole(ctx):
     P = symarray('p', (3, 3), real=True)
     SH = symarray('s', (3,), real=True)
     CE = symarray('c', (3,), real=True)
+    VR, VU = symarray('vr', (3, 3), real=True), symarray('vu', (3, 3), real=True)      # vectors of the rotated cell and of the unit cell: different cells
+
+    class UCm(PyStub):
+        class B(PyStub):
+            a = sp.Integer(7)
+
+            def vector_crystal_to_cartesian(self, v):
+                return np.asarray(v, dtype=object).dot(VU)
+        box = B()
 
     def setup(line, **extra):
         log = []
@@ -213,7 +222,7 @@ def monopole(ctx):
                 a, b, c = sp.Integer(3), sp.Integer(4), sp.Integer(5)
 
                 def vector_crystal_to_cartesian(self, v):
-                    return ('CART', tuple(v))
+                    return np.asarray(v, dtype=object).dot(VR) if is_arr(v) else ('CART', tuple(v))
             box = B()
 
             def supersize(self, *m):
@@ -272,8 +281,8 @@ def monopole(ctx):
         ctx.ob('MONOPOLE', loc, 'sizemults with %s are refused' % tag, not acc, node=fn, key='refuse ' + tag)
     # sequence
     for tag, kw in (('cylinder boundary, centre given', dict(center=CE, boundarywidth=sp.Integer(2), boundaryshape='cylinder', return_base_system=True)), ('box boundary', dict(boundarywidth=sp.Integer(2), boundaryshape='box')),
-                    ('no boundary', dict())):
-        obj, ev, log, base, copies = setup(1)
+                    ('no boundary', dict()), ('centre given relative to the rotated cell', dict(center=CE, centerscale=True))):
+        obj, ev, log, base, copies = setup(1, ucell=UCm())
         try:
             r = [q for q in ev.run_fn(fn, [obj], dict(kw)) if q.done == 'return']
         except Opaque as e:
@@ -285,6 +294,8 @@ def monopole(ctx):
         ctx.ob('MONOPOLE', loc, '%s: the reference crystal is replicated, moved by the slip-plane shift and wrapped; the dislocation system starts as a copy of it' % tag, bool(ok), node=fn, key='base ' + tag)
         dp = [l for l in log if l[0] == 'displacement']
         ce = kw.get('center', arr([0, 0, 0]))
+        if kw.get('centerscale'):
+            ce = CE.dot(VR)          # a relative centre is stated in the vectors of the rotated cell the crystal is built from (as periodicarray does), not of the unit cell
         ok = len(dp) == 1 and equal(dp[0][1], (P + SH) - ce, deep=False)
         if ok and disl is not None:
             U = np.array([[sp.Function('u%d' % j)(*row) for j in range(3)] for row in ((P + SH) - ce)], dtype=object)
